@@ -468,8 +468,27 @@ func ruleHandshakeWatchdog(c *Ctx, p *core.Program) {
 			wait = call.(ssa.Instruction)
 		}
 	}
+	// a deferred function of handshake runs after the Wait as well
+	var lateDefer ssa.Instruction
+	for _, call := range core.Calls(hs) {
+		d, ok := call.(*ssa.Defer)
+		if !ok {
+			continue
+		}
+		f := core.StaticFn(d)
+		if f == nil {
+			continue
+		}
+		for g := range core.StaticReach(f, 4) {
+			if g == flushFn || g.Name() == "packet" && pkgOf(g) != nil && pkgOf(g).Path() == core.PkgCh {
+				lateDefer = d
+			}
+		}
+	}
 	if wait == nil {
 		c.R.Unk(rule, core.FuncName(hs)+"/covered", cfg, p.Pos(hs.Pos()), "handshake does not wait for its goroutines (Wait call not found)")
+	} else if lateDefer != nil {
+		c.R.Bad(rule, core.FuncName(hs)+"/covered", cfg, p.Pos(lateDefer.Pos()), "a deferred function of handshake touches the transport: it runs after Wait(), when the watchdog has exited")
 	} else if w := core.ReachAvoiding(core.PointOf(wait), isIO, nil, nil); len(w) > 0 {
 		c.R.Bad(rule, core.FuncName(hs)+"/covered", cfg, p.Pos(w[0].At.Pos()), "handshake touches the transport after Wait(): the watchdog has exited by then, so a cancellation while this read/write blocks neither closes the connection nor ends the call")
 	} else {
